@@ -248,7 +248,10 @@ class SymInt(object):
         return self.ex.decide(self.t != 0)
 
     def __index__(self):
-        raise llsym.Unsupported('symbolic int used where a concrete int is required (__index__)')
+        # used as a list index / range bound: fork over the feasible concrete values (bounded)
+        if self.mode == 'int':
+            return self.ex.concretize_int(self.t, 64, 'int used as index')
+        return llsym.signed(self.ex.concretize(self.t, BVW, 64, 'int used as index'), BVW)
 
     def __int__(self):
         raise llsym.Unsupported('int() of a symbolic int')
